@@ -45,6 +45,9 @@ pub struct Flags {
     /// restrict the back conversion: (chromosome selector, a, b) as fractions of the chromosome
     pub restrict: Option<(u16, u16, u16)>,
     pub restrict_chrom_only: bool,
+    /// 0 = --start and --end, 1 = only --start, 2 = only --end (when not chrom-only)
+    #[serde(default)]
+    pub restrict_which: u8,
     pub delay: Option<(u32, u8)>,
 }
 
@@ -174,9 +177,9 @@ fn flags() -> BoxedStrategy<Flags> {
             any::<bool>(),
         ),
         (1u8..=16, any::<bool>(), style()),
-        (proptest::option::of((any::<u16>(), any::<u16>(), any::<u16>())), any::<bool>(), proptest::option::of((any::<u32>(), 30u8..=100))),
+        (proptest::option::of((any::<u16>(), any::<u16>(), any::<u16>())), prop::bool::weighted(0.3), proptest::option::of((any::<u32>(), 30u8..=100)), 0u8..3),
     )
-        .prop_map(|((threads, parallel, single_pass, inmemory, uncompressed), (block_size, zooms, style, ucsc), (back_threads, back_inmemory, back_style), (restrict, restrict_chrom_only, delay))| Flags {
+        .prop_map(|((threads, parallel, single_pass, inmemory, uncompressed), (block_size, zooms, style, ucsc), (back_threads, back_inmemory, back_style), (restrict, restrict_chrom_only, delay, restrict_which))| Flags {
             threads,
             parallel,
             single_pass,
@@ -191,6 +194,7 @@ fn flags() -> BoxedStrategy<Flags> {
             back_style,
             restrict,
             restrict_chrom_only,
+            restrict_which,
             delay,
         })
         .boxed()
@@ -318,23 +322,45 @@ impl Prop for C16 {
             };
             let x = ((a as u64 * (size as u64 + 1)) >> 16) as u32;
             let y = ((b as u64 * (size as u64 + 1)) >> 16) as u32;
-            let (s, e) = if f.restrict_chrom_only { (0, size) } else { (x.min(y), x.max(y)) };
+            let (lo, hi) = (x.min(y), x.max(y));
+            // --chrom alone, with both bounds, or with only one of them (the other defaults to 0 / the chromosome length)
+            let (with_start, with_end) = if f.restrict_chrom_only {
+                (false, false)
+            } else {
+                match f.restrict_which % 3 {
+                    0 => (true, true),
+                    1 => (true, false),
+                    _ => (false, true),
+                }
+            };
+            let s = if with_start { lo } else { 0 };
+            let e = if with_end { hi } else { size };
             if f.ucsc {
                 args.push(format!("-chrom={}", name));
-                if !f.restrict_chrom_only {
+                if with_start {
                     args.push(format!("-start={}", s));
+                }
+                if with_end {
                     args.push(format!("-end={}", e));
                 }
             } else {
                 args.push("--chrom".into());
                 args.push(name);
-                if !f.restrict_chrom_only {
+                if with_start {
                     args.push("--start".into());
                     args.push(s.to_string());
+                }
+                if with_end {
                     args.push("--end".into());
                     args.push(e.to_string());
                 }
             }
+            obs.label(match (with_start, with_end) {
+                (true, true) => "restrict=chrom+start+end",
+                (true, false) => "restrict=chrom+start",
+                (false, true) => "restrict=chrom+end",
+                _ => "restrict=chrom",
+            });
             restricted = Some((ci, s, e));
         }
         let (rc, err) = run(&prog, &args, f.delay)?;
